@@ -50,11 +50,11 @@ func c02run(c *hx.Ctx, cs c02case) error {
 		p, err = pairfx.NewPairWith(cs.Seed, true, 11, func(w *chainfx.World, o *chainfx.HistoryOpts) {
 			w.AddFresh(6)
 			w.Sharded(cs.Shards)
-			o.Onboard = true
+			o.Onboard, o.MoreTypes = true, true
 		})
 	} else {
 		// real embedded contracts (deploy / call / terminate through the real VM): gas beyond the size gas, receipts
-		p, err = pairfx.NewPairWith(cs.Seed, true, 8, func(w *chainfx.World, o *chainfx.HistoryOpts) { o.Contracts = cs.Seed%2 == 0 })
+		p, err = pairfx.NewPairWith(cs.Seed, true, 8, func(w *chainfx.World, o *chainfx.HistoryOpts) { o.Contracts, o.MoreTypes = cs.Seed%2 == 0, true })
 	}
 	if err != nil {
 		return err
